@@ -214,6 +214,14 @@ class Type1Tag(Tag):
             if ndef is not None and len(ndef) > self._capacity:
                 log.debug("ndef message tlv exceeds the data area")
                 return None
+            if ndef is not None:
+                # also as it is stored, with one or three length bytes,
+                # the tlv must end within the usable data area bytes
+                usable = set(range(offset, tag_memory_size)) - skip_bytes
+                header = 4 if tag_memory[offset+1] == 0xFF else 2
+                if header + len(ndef) > len(usable):
+                    log.debug("ndef message tlv exceeds the data area")
+                    return None
             self._ndef_tlv_offset = offset
             self._tag_memory = tag_memory
             self._skip_bytes = skip_bytes
